@@ -4,6 +4,8 @@ from jaqalpaq.core.algorithm.visitor import Visitor
 from jaqalpaq.core.circuit import Circuit
 from jaqalpaq.core.block import BlockStatement, LoopStatement
 from jaqalpaq.core.gatedef import GateDefinition
+from jaqalpaq.core.gate import GateStatement
+from jaqalpaq.core.macro import Macro
 
 
 def expand_subcircuits(circuit, prepare_def=None, measure_def=None):
@@ -55,6 +57,8 @@ class SubcircuitExpander(Visitor):
     def __init__(self, prepare_def, measure_def):
         self.prepare_def = prepare_def
         self.measure_def = measure_def
+        # Macros whose bodies contained subcircuits, by name
+        self.macros = {}
 
     def visit_default(self, obj):
         """By default we leave all objects alone. Note that the object is not copied."""
@@ -62,11 +66,29 @@ class SubcircuitExpander(Visitor):
 
     def visit_Circuit(self, circuit):
         new_circuit = Circuit(native_gates=circuit.native_gates)
-        new_circuit.macros.update(circuit.macros)
+        # Subcircuits may also occur in macro bodies. Macros are visited in
+        # definition order so that calls to earlier macros are re-linked.
+        for name, macro in circuit.macros.items():
+            new_macro = self.visit(macro)
+            if new_macro is not macro:
+                self.macros[name] = new_macro
+            new_circuit.macros[name] = new_macro
         new_circuit.constants.update(circuit.constants)
         new_circuit.registers.update(circuit.registers)
         new_circuit.body.statements.extend(self.visit(circuit.body).statements)
         return new_circuit
+
+    def visit_Macro(self, macro):
+        new_body = self.visit(macro.body)
+        if new_body == macro.body:
+            return macro
+        return Macro(macro.name, macro.parameters, new_body)
+
+    def visit_GateStatement(self, gate):
+        new_def = self.macros.get(gate.name)
+        if new_def is None:
+            return gate
+        return GateStatement(new_def, gate.parameters)
 
     def visit_LoopStatement(self, loop):
         return LoopStatement(loop.iterations, self.visit(loop.statements))
